@@ -16,7 +16,7 @@
    Isoform ids are integers ordered like the Python strings; sets of isoform ids are kept as id-sorted lists (every place where the
    code's result could depend on set iteration order sorts afterwards). *)
 From Coq Require Import ZArith NArith QArith List Bool Lia ZifyBool.
-From IQ Require Import CorrSupport Intervals Junctions Assigner AssignerEnds.
+From IQ Require Import CorrSupport Intervals Junctions AssignerDefs AssignerEndsDefs.
 From IQ.gen Require Import Tables Prims.
 Import ListNotations. Open Scope Z_scope.
 
